@@ -13,6 +13,19 @@ import peptacular as pt
 from peptacular.proforma.proforma_parser import parse
 
 
+def mk(inp):
+    """the annotation of a case: parsed text, optionally followed by earlier operations (multi-step histories)"""
+    a = parse(inp['text'])
+    for op in inp.get('pre', []):
+        if op == 'reverse':
+            a = a.reverse()
+        elif op == 'shift1':
+            a = a.shift(1)
+        elif op == 'shuffle':
+            a = a.shuffle(3)
+    return a
+
+
 def safe_mass(a):
     try:
         return round(pt.mass(a.copy(), monoisotopic=True), 6)
@@ -151,7 +164,7 @@ def cuts_ok(v, i, j):
 
 
 def case_slice(inp):
-    a = parse(inp['text'])
+    a = mk(inp)
     v = view(a)
     i, j = inp['i'], inp['j']
     before = a.serialize()
@@ -180,7 +193,7 @@ def case_slice(inp):
 
 
 def case_split(inp):
-    a = parse(inp['text'])
+    a = mk(inp)
     v = view(a)
     pieces = list(a.copy().split())
     n = len(v['res'])
@@ -203,27 +216,39 @@ def case_split(inp):
 
 
 def run(rec, tier, seed, only=None):
+    want = lambda name: only is None or name in only or (only.split('.')[-1] in name)
     for text, a in annotations(tier, seed):
         v = view(a)
         n = len(v['res'])
-        for swap in (False, True):
+        for swap in ((False, True) if want('reverse') else ()):
             inp = dict(text=text, swap=swap)
             rec.guarded('reverse', inp, lambda: case_reverse(inp), fk_generic)
         ks = sorted(set(list(range(-2 * n, 2 * n + 1)) if n <= 4 else [-2 * n, -n - 1, -n, -1, 0, 1, 2, n - 1, n, n + 1, 2 * n]))
-        for k in ks:
+        for k in (ks if want('shift') else ()):
             inp = dict(text=text, k=k)
             rec.guarded('shift', inp, lambda: case_shift(inp), fk_shift)
-        for sd in (0, 7):
+        for sd in ((0, 7) if only is None else ()):
             inp = dict(text=text, seed=sd)
             rec.guarded('shuffle-sort', inp, lambda: case_shuffle_sort(inp), fk_generic)
         pairs = [(i, j) for i in range(n + 1) for j in range(i, n + 1)] if n <= 5 else \
             [(0, n), (0, 1), (n - 1, n), (1, n - 1), (2, 5), (0, 0), (n, n), (3, n)]
-        for i, j in pairs:
+        for i, j in (pairs if want('slice') else ()):
             if not cuts_ok(v, i, j):
                 continue
             inner = [(k, l) for k in range(j - i + 1) for l in range(k, j - i + 1)][:6]
             inp = dict(text=text, i=i, j=j, inner=inner)
             rec.guarded('slice', inp, lambda: case_slice(inp), fk_generic)
+        # multi-step histories: slice / split after an earlier reordering (the annotation's internal order differs from a parsed one)
+        if not v['intervals'] and n >= 2 and want('slice'):
+            for pre in (['reverse'], ['shift1'], ['shuffle']):
+                for i, j in ((0, 1), (n - 1, n), (0, n), (1, n)):
+                    inp = dict(text=text, pre=pre, i=i, j=j, inner=[(0, j - i)])
+                    rec.guarded('slice', inp, lambda: case_slice(inp), fk_generic)
+                if only is None:
+                    inp = dict(text=text, pre=pre)
+                    rec.guarded('split', inp, lambda: case_split(inp), fk_generic)
+        if only is not None:
+            continue
         inp = dict(text=text)
         rec.guarded('split', inp, lambda: case_split(inp), fk_generic)
 
